@@ -127,9 +127,12 @@ def kernel_samples(comp: str, tier: str) -> dict | None:
         r = subprocess.run([sys.executable, "-m", "checks.kernel_samples", str(n)], cwd=VERIF, capture_output=True, text=True,
                            env=dict(os.environ, VERIF_KERNEL_COMPONENT=comp))
         try:
-            return json.loads(r.stdout.strip().splitlines()[-1])
+            res = json.loads(r.stdout.strip().splitlines()[-1])
         except Exception:  # noqa: BLE001
             raise core.InfraError("kernel samples could not be run: " + (r.stdout + r.stderr)[-800:])
+        if "infra_error" in res or r.returncode not in (0, 1):
+            raise core.InfraError("kernel samples could not be checked by Lean: " + json.dumps(res)[:800])
+        return res
 
     return core.cached("kernel-" + comp, tier, compute)
 
